@@ -142,6 +142,14 @@ def run(ctx):
                 c = Case(recs, t, fmt="msf", intext=txt, tag="%s type=%d" % (tag, t))
                 c.exp = exp
                 cases.append(c)
+        if i % 2 == 0:
+            # an input that holds records without any residue letters (names only, or gap glyphs only) read BEFORE the file with the sequences: the class
+            # of the combined input is that of the residues there are
+            lead = rng.choice([">only_a_name\n>another_name\n", ">g1\n----\n>g2\n--..--\n", ">n1\n\n>n2\n-\n>n3\n"])
+            for t in (5, 0 if exp == 1 else 3, 3 if exp == 1 else 0):
+                c = Case(recs, t, fmt="msf", infiles=[lead, gen.fasta_text(recs)], tag="residue-free records first, then the sequences type=%d" % t)
+                c.exp = exp
+                cases.append(c)
         if len(gapped_split) >= 2:
             # the heavily gapped presentation given as two (or three) input files that are merged: the class of the merged set is still decided by
             # the residues alone
